@@ -49,6 +49,7 @@ func runC19(c *Config, r *Report) {
 	c19R11and12(ic, r)
 	c19R13(ic, r)
 	c19R14(ic, r)
+	c19R15(ic, r)
 	// R19.8: the channel operations a debugged program runs (the cancellable variants) store their
 	// results on every path, like the blocking ones (same analysis as C01/R01.8)
 	c01R8(ic, r, "R19.8", map[string]bool{"recv": true, "recv2": true, "send": true, "rangeChan": true, "_select": true})
@@ -1268,4 +1269,52 @@ func c19R14(ic *IC, r *Report) {
 		r.Check(why == "", "R19.14", fmt.Sprintf("runCfg/debugger-loop#%d/debugger-consulted-before-every-node", i+1), ic.pos(c.Pos()), "the call of (*Debugger).exec is unconditional and dominates the node's execution",
 			"in the debugger loop of runCfg the call of (*Debugger).exec is not made for every node: "+why+". The breakpoint test is the first thing exec does, so a breakpoint on a line executed while stepping over a call, or before the return while stepping out, is not reported")
 	}
+}
+
+func init() {
+	ruleText["R19.15"] = "entering a call under the debugger does not assume that the ancestor frame belongs to the session: in (*Debugger).enterCall the routine of the new frame is not read through the ancestor's debug data (f.anc.debug.g) without a nil test - the ancestor of a closure's activation is the frame captured when the closure was created, possibly outside any session or in an earlier one"
+}
+
+// c19R15: found through the round-7 report on C19 (E4, E5). A closure created by a plain Eval
+// crashed when called under the debugger (nil dereference in enterCall), and one created in an
+// earlier session made the next session hang on the dead session's routine.
+func c19R15(ic *IC, r *Report) {
+	info := ic.Info
+	fi := ic.fn(r, "Debugger.enterCall")
+	if fi == nil {
+		return
+	}
+	ancFld := ic.field("frame", "anc")
+	dbgFld := ic.field("frame", "debug")
+	bad := ""
+	n := 0
+	ast.Inspect(fi.Decl.Body, func(q ast.Node) bool {
+		se, ok := q.(*ast.SelectorExpr)
+		if !ok {
+			return true
+		}
+		// X.debug.<field> with X = <frame>.anc
+		inner, ok := unparen(se.X).(*ast.SelectorExpr)
+		if !ok || selField(info, inner) != dbgFld || selField(info, inner.X) != ancFld {
+			return true
+		}
+		n++
+		tested := false
+		for _, g := range pathGuards(fi.Decl.Body, se) {
+			ast.Inspect(g.cond, func(z ast.Node) bool {
+				if be, ok := z.(*ast.BinaryExpr); ok && be.Op == token.NEQ && selField(info, be.X) == dbgFld {
+					if id := identOf(be.Y); id != nil && id.Name == "nil" {
+						tested = true
+					}
+				}
+				return true
+			})
+		}
+		if !tested {
+			bad = types.ExprString(se) + " at " + ic.pos(se.Pos())
+		}
+		return true
+	})
+	r.Check(bad == "", "R19.15", "Debugger.enterCall/ancestor-debug-data-not-assumed", ic.pos(fi.Decl.Pos()), fmt.Sprintf("%d reads of the ancestor's debug data in enterCall, none without a nil test", n),
+		"(*Debugger).enterCall reads "+bad+" without testing the ancestor's debug data: the ancestor of a closure's activation is the frame captured when the closure was created - by a plain Eval (no debug data: the debugged program crashes with a nil dereference as soon as it calls the closure) or in an earlier session (the routine of a dead session: the new session waits on it for ever)")
 }
